@@ -150,6 +150,10 @@ func (p *C12) Generate(seed uint64, run int) *Case {
 		})
 	}
 	add("debug", func(st *Step) { st.Argv = append([]string{"--debug"}, st.Argv...) })
+	if r.Chance(1, 3) {
+		// the flag given twice is still the flag
+		add("debug", func(st *Step) { st.Argv = append(append([]string{"--debug"}, st.Argv...), "--debug") })
+	}
 	if b.Input != nil {
 		add("delivery", func(st *Step) { st.Stdin.Plan = GenPlan(r) })
 		if r.Chance(1, 2) {
@@ -203,6 +207,12 @@ func (p *C12) Generate(seed uint64, run int) *Case {
 		if r.Chance(1, 2) {
 			// the -o target already exists and is longer than anything crd writes here
 			withExistingOutput(r, st)
+		} else if r.Chance(1, 3) {
+			// the -o target is a FIFO (or /dev/stdout on a pipe): no seeking, no fsync
+			if st.Files == nil {
+				st.Files = map[string]*simrt.FileSpec{}
+			}
+			st.Files[outPath] = &simrt.FileSpec{Pipe: true}
 		} else if r.Chance(1, 2) {
 			// the -o target lives on another file system than the temp directory
 			if st.Files == nil {
